@@ -9,7 +9,11 @@
 (* and a receipt nobody waits for is reported as unhandled; no panic       *)
 (* (send on a closed channel); the handler never blocks the serve loop for *)
 (* good; no call stays blocked once its context ended or its receipt has   *)
-(* been taken - in every interleaving of sends, receipts and cancellation. *)
+(* been taken - in every interleaving of sends, receipts and cancellation, *)
+(* and in both CONFIGURATIONS of the handler: with the optional Unhandled  *)
+(* callback set, and the default &receipts.Handler{} without it (a receipt *)
+(* nobody waits for is then dropped silently - and must leave the handler  *)
+(* as usable as before: the next receipt, the next send still go through). *)
 (*                                                                         *)
 (* Two layers, as in MUC.tla: the OBSERVER (O...) states the property over *)
 (* the events visible from outside and is what recorded runs of the real   *)
@@ -37,11 +41,12 @@ VARIABLES
   credit,             \* per id: receipts taken by the handler for a waiting call (not reported unhandled)
   oks,                \* per id: successful returns
   unh,                \* Unhandled callbacks since the last processed stanza
+  hasUnh,             \* configuration: the handler has an Unhandled callback
   viol, nenv,
   \* mechanism
   table, tok, closed, pc, hpc
 
-ovars == <<st, res, cancelled, wire, outClosed, inflight, credit, oks, unh, viol, nenv>>
+ovars == <<st, res, cancelled, wire, outClosed, inflight, credit, oks, unh, hasUnh, viol, nenv>>
 mvars == <<table, tok, closed, pc, hpc>>
 vars == <<ovars, mvars>>
 
@@ -49,6 +54,7 @@ OInit ==
   /\ st = [i \in Reqs |-> "idle"] /\ res = [i \in Reqs |-> None]
   /\ cancelled = {} /\ wire = {} /\ outClosed = FALSE /\ inflight = <<>>
   /\ credit = [i \in Ids |-> 0] /\ oks = [i \in Reqs |-> 0] /\ unh = <<>> /\ viol = {} /\ nenv = 0
+  /\ hasUnh \in BOOLEAN
 MInit ==
   /\ table = {} /\ tok = [i \in Reqs |-> 0] /\ closed = {} /\ pc = [i \in Reqs |-> "idle"] /\ hpc = "idle"
 Init == OInit /\ MInit
@@ -60,34 +66,39 @@ Pending(i) == st[i] = "pending"
 OCall(i) ==
   /\ st[i] = "idle" /\ st' = [st EXCEPT ![i] = "pending"]
   /\ inflight' = [k \in 1..Len(inflight) |-> IF inflight[k].id = i THEN [id |-> i, live |-> TRUE] ELSE inflight[k]]
-  /\ UNCHANGED <<res, cancelled, wire, outClosed, credit, oks, unh, viol>>
+  /\ UNCHANGED <<res, cancelled, wire, outClosed, credit, oks, unh, viol, hasUnh>>
 OWire(i) ==
   /\ st[i] # "idle" /\ wire' = wire \cup {i}
-  /\ UNCHANGED <<st, res, cancelled, outClosed, inflight, credit, oks, unh, viol>>
+  /\ UNCHANGED <<st, res, cancelled, outClosed, inflight, credit, oks, unh, viol, hasUnh>>
 OCancel(i) ==
   /\ cancelled' = cancelled \cup {i}
-  /\ UNCHANGED <<st, res, wire, outClosed, inflight, credit, oks, unh, viol>>
+  /\ UNCHANGED <<st, res, wire, outClosed, inflight, credit, oks, unh, viol, hasUnh>>
 OCloseOut ==
   /\ outClosed' = TRUE
-  /\ UNCHANGED <<st, res, cancelled, wire, inflight, credit, oks, unh, viol>>
+  /\ UNCHANGED <<st, res, cancelled, wire, inflight, credit, oks, unh, viol, hasUnh>>
 OPeer(id) ==
   /\ inflight' = Append(inflight, [id |-> id, live |-> id \in Reqs /\ st[id] = "pending"])
-  /\ UNCHANGED <<st, res, cancelled, wire, outClosed, credit, oks, unh, viol>>
+  /\ UNCHANGED <<st, res, cancelled, wire, outClosed, credit, oks, unh, viol, hasUnh>>
 OUnhandled(id) ==
+  /\ hasUnh                       \* there is a callback to report it to
   /\ unh' = Append(unh, id)
-  /\ UNCHANGED <<st, res, cancelled, wire, outClosed, inflight, credit, oks, viol>>
+  /\ UNCHANGED <<st, res, cancelled, wire, outClosed, inflight, credit, oks, viol, hasUnh>>
 (* the serve loop has finished with the oldest receipt: it was reported unhandled (once, with *)
-(* its id) or taken for the call with that id (credit)                                        *)
-OHandled(id) ==
+(* its id), or taken for the call with that id (credit), or - only a handler without an       *)
+(* Unhandled callback may do that - dropped silently (taken = FALSE, nothing reported)        *)
+OHandled(id, taken) ==
   /\ inflight # <<>> /\ Head(inflight).id = id
   /\ inflight' = Tail(inflight)
-  /\ IF unh = <<>>
+  /\ IF unh # <<>>
+     THEN /\ credit' = credit
+          /\ viol' = viol \cup (IF unh = <<id>> THEN {} ELSE {"C06_UnhandledOnce"})
+     ELSE IF taken
      THEN /\ credit' = [credit EXCEPT ![id] = @ + 1]
           /\ viol' = viol \cup (IF Head(inflight).live /\ credit[id] = 0 THEN {} ELSE {"C06_UnclaimedToHandler"})
      ELSE /\ credit' = credit
-          /\ viol' = viol \cup (IF unh = <<id>> THEN {} ELSE {"C06_UnhandledOnce"})
+          /\ viol' = viol \cup (IF hasUnh THEN {"C06_UnclaimedToHandler"} ELSE {})
   /\ unh' = <<>>
-  /\ UNCHANGED <<st, res, cancelled, wire, outClosed, oks>>
+  /\ UNCHANGED <<st, res, cancelled, wire, outClosed, oks, hasUnh>>
 
 InFlight(id) == \E k \in 1..Len(inflight) : inflight[k].id = id
 RetGood(i, o) ==
@@ -100,7 +111,7 @@ ORet(i, o) ==
   /\ st' = [st EXCEPT ![i] = "done"] /\ res' = [res EXCEPT ![i] = o]
   /\ oks' = IF o = "ok" THEN [oks EXCEPT ![i] = @ + 1] ELSE oks
   /\ viol' = viol \cup (IF RetGood(i, o) THEN {} ELSE {IF o = "ok" THEN "C06_OwnReceiptOnly" ELSE "C06_Outcome"})
-  /\ UNCHANGED <<cancelled, wire, outClosed, inflight, credit, unh>>
+  /\ UNCHANGED <<cancelled, wire, outClosed, inflight, credit, unh, hasUnh>>
 
 (* nothing can move without the environment *)
 StallClauses ==
@@ -109,7 +120,7 @@ StallClauses ==
   \cup {"C06_OwnReceiptOnly" : i \in {i \in Reqs : oks[i] > credit[i]}}
 OQuiet ==
   /\ viol' = viol \cup StallClauses
-  /\ UNCHANGED <<st, res, cancelled, wire, outClosed, inflight, credit, oks, unh>>
+  /\ UNCHANGED <<st, res, cancelled, wire, outClosed, inflight, credit, oks, unh, hasUnh>>
 Quiescent == (\A i \in Reqs : ~Pending(i)) /\ inflight = <<>>
 
 -----------------------------------------------------------------------------
@@ -148,9 +159,10 @@ LookupHit ==
   /\ UNCHANGED <<ovars, tok, closed, pc>>
 LookupMiss ==
   /\ hpc = "idle" /\ inflight # <<>> /\ Head(inflight).id \notin table
-  /\ OUnhandled(Head(inflight).id) /\ hpc' = "missed" /\ UNCHANGED <<nenv, table, tok, closed, pc>>
+  /\ (IF hasUnh THEN OUnhandled(Head(inflight).id) /\ UNCHANGED nenv ELSE UNCHANGED ovars)
+  /\ hpc' = "missed" /\ UNCHANGED <<table, tok, closed, pc>>
 FinishMiss ==
-  /\ hpc = "missed" /\ OHandled(Head(inflight).id) /\ hpc' = "idle" /\ UNCHANGED <<nenv, table, tok, closed, pc>>
+  /\ hpc = "missed" /\ OHandled(Head(inflight).id, FALSE) /\ hpc' = "idle" /\ UNCHANGED <<nenv, table, tok, closed, pc>>
 (* ... then signal the call.  Repaired: the channel has room for the one signal and is never  *)
 (* closed.  Pinned (CloseOnCancel): unbuffered rendezvous with the call's select, and the     *)
 (* cancelled call closes the channel: the send panics.                                        *)
@@ -160,10 +172,10 @@ Signal ==
      IF "CloseOnCancel" \in Dev
      THEN \/ /\ i \in closed /\ viol' = viol \cup {"C06_NoPanic"} /\ hpc' = "idle"
              /\ inflight' = Tail(inflight) /\ unh' = <<>>
-             /\ UNCHANGED <<st, res, cancelled, wire, outClosed, credit, oks, nenv, table, tok, closed, pc>>
+             /\ UNCHANGED <<st, res, cancelled, wire, outClosed, credit, oks, hasUnh, nenv, table, tok, closed, pc>>
           \/ /\ i \notin closed /\ pc[i] = "wait" /\ pc' = [pc EXCEPT ![i] = "ok"]
-             /\ OHandled(i) /\ hpc' = "idle" /\ UNCHANGED <<nenv, table, tok, closed>>
-     ELSE /\ tok' = [tok EXCEPT ![i] = 1] /\ OHandled(i) /\ hpc' = "idle"
+             /\ OHandled(i, TRUE) /\ hpc' = "idle" /\ UNCHANGED <<nenv, table, tok, closed>>
+     ELSE /\ tok' = [tok EXCEPT ![i] = 1] /\ OHandled(i, TRUE) /\ hpc' = "idle"
           /\ UNCHANGED <<nenv, table, closed, pc>>
 
 LibNext ==
